@@ -19,7 +19,7 @@ class Stream:
     a disagreement is a failing input by itself)."""
 
     def __init__(self, name, role, impl_lines, model_lines=None, judge=None, nontrivial=None,
-                 exhaustive=False, rule="", canon=None, impl_env=None, known=None, post=None, known_query=None):
+                 exhaustive=False, rule="", canon=None, impl_env=None, known=None, post=None, known_query=None, groups=None):
         self.name = name
         self.role = role
         self.impl_lines = impl_lines
@@ -36,6 +36,13 @@ class Stream:
         self.post = post
         # known_query(impl_line) -> (finding id, model line evaluating the finding's Coq class predicate)
         self.known_query = known_query
+        # groups: [(env, lines)] — one implementation process per group, each with its own environment;
+        # impl_lines is then the concatenation of the groups' lines
+        self.groups = groups
+        if groups is not None:
+            self.impl_lines = [l for _, ls in groups for l in ls]
+            if model_lines is None:
+                self.model_lines = self.impl_lines
 
 
 def load_known_findings():
@@ -138,7 +145,10 @@ def run_check(pid, tier, seed):
         mirror_mismatch = []
         for st in streams:
             ts = time.time()
-            io = rvlib.run_sharded(rvh, st.impl_lines, work, st.name + ".impl", env=st.impl_env)
+            if st.groups is not None:
+                io = [o for outs in rvlib.run_groups(rvh, st.groups, work, st.name + ".impl") for o in outs]
+            else:
+                io = rvlib.run_sharded(rvh, st.impl_lines, work, st.name + ".impl", env=st.impl_env)
             if st.role == "check":
                 st.model_lines = [st.post(l, o) for l, o in zip(st.impl_lines, io)]
                 mo = rvlib.run_sharded(rvm, st.model_lines, work, st.name + ".model")
